@@ -48,8 +48,14 @@ def gen_cfg(rng, tier: str, big: bool = False, kind: str | None = None) -> dict:
         grain = rng.choice([1, 1, 8, 128])
         cover = 4096 * grain
         ngt = rng.choice([1, 1, 2, 3]) if not big else rng.randint(100, 1000)
+        huge = big and rng.random() < 0.4
+        if huge:
+            # capacities of 1 TiB and more: the 32-bit capacity, directory-size and next-free-grain fields use their high bit
+            grain = 128
+            cover = 4096 * grain
+            ngt = rng.randint(4096, 8191)
         nsectors = max(1, ngt * cover - rng.choice([0, 0, rng.randrange(cover)]))
-        cfg.update(grain=grain, gtes=4096, nsectors=nsectors, zero_gte=False, sparse_gts=rng.random() < 0.5)
+        cfg.update(grain=grain, gtes=4096, nsectors=nsectors, zero_gte=False, sparse_gts=huge or rng.random() < 0.5)
         cfg["far"] = rng.choice(["data31", "datatop", "gt31", "all31"]) if (big and rng.random() < 0.7) or rng.random() < 0.1 else False
     elif kind == "sesparse":
         grain = 8
